@@ -810,8 +810,9 @@ LEVEL_NOTE = ('trusted: Lean kernel; the hand-written interpreter Yaql/Model/Eva
               'and the name normalisation of Model/Context.lean); harness/evalref.py; the renderer (every text is parsed back by '
               'the engine under test and compared with the AST).  "frame" holds by construction of the representation (contexts '
               'are values), so what is proved is its observable content.  The builtins inside the evaluator are dispatched by '
-              'name / receiver kind; that this agrees with overload resolution on the real registry is checked by correspondence '
-              'only.  Out of domain (skipped, counted): one-shot iterators read back from variables, raising generators / '
+              'name / receiver kind; that this IS overload resolution on the real registry is proved (props/c04dispatch.py: '
+              'C04DispatchGen.C04Dispatch_partial over the registry regenerated with its real parameter types, C04Dispatch.'
+              'resolve_kinds for all values, C04DispatchEval ties) for the 21 145 call shapes of the dispatch fragment.  Out of domain (skipped, counted): one-shot iterators read back from variables, raising generators / '
               'orderings / contexts stored inside data, operators on lazy sequences.')
 TECHNIQUE = 'Lean 4 proof (induction on fuel over a non-recursive step functional) + three-way differential run of generated programs'
 DESIGN_REF = 'DESIGN.md section 5, C04'
